@@ -1613,7 +1613,7 @@ func main() {
 		ID:    "C19",
 		Level: "exploration",
 		Rule: "one law table per filter, each law on a full grid: all strings of length <= 5 (quick 4) over {a B space é ß 日 newline}; the case laws on every code point (quick: BMP); all lists of length <= 4 (quick 3) " +
-			"over 4 numbers / 4 strings / 4 floats as []interface{}, []int, []string, []float64, plus all []interface{} lists of that length of numbers of every Go numeric kind (12 kinds: mixed over one value per kind, and three values per single kind) under reverse, sort, length/first/last/slice and join|split; all maps with <= 3 entries as map[string]interface{}/int/string, map[int]string; slice(start[, length]) for every start in [-n-2, n+2] " +
+			"over 4 numbers / 4 strings / 4 floats as []interface{}, []int, []string, []float64, plus all []interface{} lists of that length of numbers of every Go numeric kind (12 kinds: mixed over one value per kind, and three values per single kind) under reverse, sort, length/first/last/slice and join|split; typed slices and arrays with other element kinds ([]named-string, []bool, []struct, []fmt.Stringer, [n]string, [n]named-string, [n]int, [n]struct): every list of length <= 5 (quick 4) over 4 values (2 for bool) under sort (permutation, idempotent, equal to sort of the same values in a []interface{}; ordered where the statement fixes the order), reverse, length, first, last, slice(1), join; all maps with <= 3 entries as map[string]interface{}/int/string, map[int]string; slice(start[, length]) for every start in [-n-2, n+2] " +
 			"and length in {omitted} ∪ [-n-2, n+2] on every string over {a é 日 U+0301} (thorough: and U+0308) and on lists ([]interface{}, []string, []int) of n <= 5 (quick 4) items, literal and variable arguments; join|split over 7 separators; default over 40 values x 3 positions; " +
 			"merge over all pairs of lists of length <= 2 and maps of <= 2 entries in all type combinations; held results: for every operand r (array literal, range(a, b), every window xs|slice(s, k) of a longer list, Go slices of 5 representations with spare capacity 0/1/2/5 or grown by append, results of merge/sort/reverse/slice/split/keys; elements a permutation of a subset of 1..3, thorough 1..4) and every ordered pair (f, g) of 8 list-returning filter applications (4 merge argument forms, sort, reverse, slice(0, -1), slice(1)): a = r|f, b = r|g, then a, b, r and the longer list are all checked; the same for map merges; values changed in place between renders: one Go map object (map[string]interface{} / map[string]int / map[string]string / map[int]string) taken through every ordered pair of the 64 maps over {a,b,c} x {0,1,2} and through every sequence of three key sets over {a,b,c} (thorough {a,b,c,d}; same engine or a new one, same context map or a new one, one template or one per observation), and one backing array taken through every ordered pair of lists of length <= 3 over 3 (thorough 4) symbols in 6 representations, rendered in every state: keys, length, for, merge (both sides), first, default resp. length, for, first, last, sort, reverse, join, merge, slice must show the value as it is now; nested arguments: the slice grid (n <= 3, thorough 4), join|split (one-character separators), default (21 values x 6 replacements x 4 continuations), merge (lists and maps, result going on into slice / merge), round(p, method) and number_format(d, point, sep) (k/100) evaluated with each argument and the operand written as a filter result with arguments of its own (every combination of literal / ''|default(x) / slice(..)|length / 'x..x'|slice(..) / ['', '']|join(sep) spellings; operand plain, as one more link of the chain, or inside a parenthesised expression), as the first filter chain of its template and after a chain with seven arguments (thorough: and after one with a single argument), next to the same call with literal arguments: both must equal the model and each other; reverse and the observer laws also on the strings with the combining marks U+0301 / U+0308 in the alphabet (9 symbols), the slice grid with U+0301 (thorough: and U+0308); abs, round(p, method), number_format(d, point, sep) on every decimal k/1000, |k| <= 3000, p,d in 0..3 " +
 			"(thorough k/10000, |k| <= 30000, 0..4); one fresh engine per case; non-trivial = the filter has something to do (output differs from input, index clamped, digits dropped, keys overlap, ...)",
@@ -1623,7 +1623,7 @@ func main() {
 			"for a string that contains a combining mark only the involution and the length of reverse are demanded, not the order base characters and marks come out in",
 			"a value is changed only between two renders and by the rendering goroutine (changes during a render belong to thread-safety, C02); which entry first picks from a map is not demanded, only that the map holds it now",
 			"the spellings of an argument as a filter result use only filters whose result the statement fixes (default on '', [] and {}, slice, length, join of two empty strings, merge)",
-			"don't-care by the statement: sign of a zero result (-0), false/0/'0' under default, keys of a list, join|split of the empty list, sort of mixed-type or mixed-case or numeric-looking strings, named string types, separators that share a character with an element",
+			"don't-care by the statement: sign of a zero result (-0), false/0/'0' under default, keys of a list, join|split of the empty list, sort of mixed-type or mixed-case or numeric-looking strings, named string types in the case/length laws, the order and the printed form of bools / structs / fmt.Stringer values under sort (only permutation, idempotence and agreement with the same values in a []interface{} are demanded), separators that share a character with an element",
 		},
 		QuickDeadline:    150,
 		ThoroughDeadline: 1200,
@@ -1649,6 +1649,7 @@ func main() {
 			lawReverseStrings(t, strsM)
 			lawReverseSortLists(t, lists)
 			lawReverseSortLists(t, mix)
+			lawTypedKinds(t, nl+1) // non-numeric element kinds and arrays: length <= 4 (thorough 5)
 			lawObservers(t, strsM, lists, maps3)
 			lawObservers(t, nil, mix, nil)
 			lawKeys(t, maps3)
